@@ -78,6 +78,9 @@ class C10(Check):
         stateful = bool(e.postlex)
         r = rng.random()
         k = rng.choice([1, 2, 3, 5, 8])
+        if stateful and mode == 'history' and r > 0.85:
+            # abandoned half-way but still referenced: legal also with a stateful post-lexer (it is never consumed again)
+            return ['lex_hold', text, k] if (rng.random() < 0.5 or not lalr) else ['session_hold', text, start, k]
         if not lalr:
             if e.name == 'eamp' and r > 0.88:
                 return ['sibling', text, start, {'priority': rng.choice(['invert', 'normal'])}, cfg]
@@ -99,6 +102,9 @@ class C10(Check):
             return ['get_terminal', rng.choice(sorted(t.name for t in p.terminals))]
         if r < 0.585 and mode == 'history':
             return ['parse_keep', text, start]
+        if r < 0.595 and mode == 'history':
+            # abandoned half-way but still referenced: legal also with a stateful post-lexer (it is never consumed again)
+            return ['lex_hold', text, k] if rng.random() < 0.5 else ['session_hold', text, start, k]
         if r < 0.60 and not stateful and mode == 'history':
             return ['lex_late', text]
         if r < 0.70 and not stateful:
@@ -386,6 +392,8 @@ def _abnormal(op, val):
             return 'stream-failed'
     if op[0] == 'interactive' and op[4] == 'drop':
         return 'session-abandoned'
+    if op[0] in ('lex_hold', 'session_hold'):
+        return 'generator-held-alive'
     if op[0] == 'resume_stored' and 'first' in val:
         return 'call-failed'
     return None
